@@ -69,7 +69,13 @@ where R: Zero + Send + Sync {
 
             (0 .. l - 1).into_par_iter().for_each(|i|
                 (i + 1 .. l).into_par_iter().for_each(|j| {
+                    #[cfg(yui_verif)]
+                    yui::verif::point("decomp:check", Some(&|| u.try_lock().is_ok()));
+
                     if !u.lock().unwrap().is_same(i, j) && col_intersects(a, cols[i], cols[j]) { 
+                        #[cfg(yui_verif)]
+                        yui::verif::point("decomp:union", Some(&|| u.try_lock().is_ok()));
+
                         u.lock().unwrap().union(i, j)
                     }
                 })
